@@ -5,9 +5,13 @@ from .. import common as C, battery as B
 def run(tier):
     chk = C.Check('C14', tier)
     mc = C.run_tlc('MC_Order', 'MC_Order.cfg', workers=4, timeout=600)
-    chk.add_tlc('MC_Order(lexicographic order is a strict total order; operators consistent)', mc)
+    chk.add_tlc('MC_Order(lexicographic order is a strict total order; operators consistent; recursive = first-difference form; lengths 1..4)', mc)
     if not mc.ok:
         raise C.ToolError('MC_Order failed\n' + mc.out[-2000:])
+    nob = C.run_tlaps('Order_proofs')
+    chk.layer('S.proofs', tlaps_obligations_proved=nob,
+              note='Order_proofs.tla: the first-difference order (equal to the recursive LexLess on the MC_Order scope) is irreflexive, asymmetric, '
+                   'transitive and total, == is substitutive for it, and the six derived operators are consistent — for every length and ALL integer ranks (tlapm: SMT, Isabelle for the induction)')
     exe, qs, ks = B.build()
     wd = C.work_dir('c14')
     evs = B.run_modes(exe, ks, ['compare'], n=4000 if tier == 'quick' else 200000)
